@@ -36,31 +36,37 @@ val as_loop : nat -> expr -> tok list -> (expr * tok list) res
 
 val amp_loop : coq_N -> tok list -> (coq_N * tok list) option
 
+val parse_addition_g : nat -> nat -> tok list -> (expr * tok list) res
+
+val add_loop_g : nat -> nat -> expr -> tok list -> (expr * tok list) res
+
+val bit_loop_g :
+  nat -> nat -> binop -> expr -> tok list -> (expr * tok list) res
+
+val parse_multiplication_g : nat -> nat -> tok list -> (expr * tok list) res
+
+val mul_loop_g : nat -> nat -> expr -> tok list -> (expr * tok list) res
+
+val parse_singular_g : nat -> nat -> tok list -> (expr * tok list) res
+
+val parse_unary_g : nat -> nat -> tok list -> (expr * tok list) res
+
+val parse_primary_g : nat -> nat -> tok list -> (expr * tok list) res
+
+val expr_list_g : nat -> nat -> bool -> tok list -> (expr list * tok list) res
+
+val members_loop_g :
+  nat -> nat -> tok list -> ((name * expr) list * tok list) res
+
+val parse_addressed_g : nat -> nat -> tok list -> (reference * tok list) res
+
+val parse_reference_g : nat -> nat -> tok list -> (reference * tok list) res
+
+val steps_loop_g : nat -> nat -> nat -> tok list -> (step list * tok list) res
+
+val coq_REPAIRED_ITERATIONS : nat
+
 val parse_addition : nat -> tok list -> (expr * tok list) res
-
-val add_loop : nat -> expr -> tok list -> (expr * tok list) res
-
-val bit_loop : nat -> binop -> expr -> tok list -> (expr * tok list) res
-
-val parse_multiplication : nat -> tok list -> (expr * tok list) res
-
-val mul_loop : nat -> expr -> tok list -> (expr * tok list) res
-
-val parse_singular : nat -> tok list -> (expr * tok list) res
-
-val parse_unary : nat -> tok list -> (expr * tok list) res
-
-val parse_primary : nat -> tok list -> (expr * tok list) res
-
-val expr_list : nat -> bool -> tok list -> (expr list * tok list) res
-
-val members_loop : nat -> tok list -> ((name * expr) list * tok list) res
-
-val parse_addressed : nat -> tok list -> (reference * tok list) res
-
-val parse_reference : nat -> tok list -> (reference * tok list) res
-
-val steps_loop : nat -> nat -> tok list -> (step list * tok list) res
 
 val parse_expression_res : nat -> tok list -> (expr * tok list) res
 
